@@ -42,10 +42,11 @@ func parseTagAndLength(bytes []byte) (r tagAndLen, off int, e error) {
 			return r, off, e
 		}
 		off++
+		// the length is an unsigned number (X.690 8.1.3.5)
 		var val int64
-		val, e = parseInt64(bytes[off : off+len])
-		if e != nil {
-			return r, off, e
+		for _, b := range bytes[off : off+len] {
+			val <<= 8
+			val |= int64(b)
 		}
 		// fmt.Println("bytes[off : off+len]", bytes[off : off+len], "val", val)
 
@@ -71,6 +72,12 @@ func parseInt64(bytes []byte) (r int64, e error) {
 	for _, b := range bytes {
 		r <<= 8
 		r |= int64(b)
+	}
+
+	// contents octets are a two's complement number (X.690 8.3.3): sign-extend
+	if n := len(bytes); n > 0 && n < 8 {
+		shift := uint(64 - 8*n)
+		r = r << shift >> shift
 	}
 
 	return r, e
